@@ -114,5 +114,75 @@ def run(ck):
     exe = ck.impl_driver()
     cases = gen_cases(ck)
     differential(ck, exe, cases, oracle, corr_exempt=exempt, src=True, src_norm=src_norm)
+    locale_runs(ck)
     return finish_proof(ck, rule="encoder: all lengths 0..50 x random content + every sextet value in every symbol position; decoder: encodings of all lengths 0..39 and random alphabet strings; validator/key: 24-char strings with 0..4 pads, other lengths, encodings of 13..18 bytes, mutated valid keys (pad in the middle, non-alphabet bytes incl. >=128). distinct = distinct case lines",
-                        assumptions=["isalnum evaluated in the C locale (the program never calls setlocale)"])
+                        assumptions=["isalnum evaluated in the C locale: the program never calls setlocale -- tested by running the real binary under an 8-bit locale (locale_runs)"])
+
+
+def locale_runs(ck):
+    """the key validator classifies characters with isalnum, which follows the process locale: the REAL binary (main.cpp included) is
+    started under a synthetic single-byte locale in which 0xC0..0xFE are letters, with 24-character key texts containing such
+    bytes; every one must be refused (the program must not depend on the user's LC_CTYPE / LANG)"""
+    import os, shutil, subprocess
+    if not shutil.which("localedef"):
+        ck.notes.append("locale_runs skipped: no localedef")
+        return
+    try:
+        cli = ck.impl_driver(kind="cli")
+    except wv.BuildError as e:
+        ck.notes.append("locale_runs skipped: CLI build failed: " + str(e)[-200:])
+        return
+    d = os.path.join(ck.scratch, "loc")
+    os.makedirs(d)
+    with open(os.path.join(d, "L1.charmap"), "w") as f:
+        f.write("<code_set_name> L1\n<comment_char> %\n<escape_char> /\n<mb_cur_min> 1\n<mb_cur_max> 1\nCHARMAP\n")
+        for i in range(256):
+            f.write("<U%04X> /x%02x\n" % (i, i))
+        f.write("END CHARMAP\n")
+    up = list(range(0x41, 0x5b)) + [i for i in range(0xC0, 0xDF) if i != 0xD7]
+    lo = list(range(0x61, 0x7b)) + [i for i in range(0xE0, 0xFF) if i != 0xF7]
+    L = lambda xs: ";".join("<U%04X>" % x for x in xs)
+    with open(os.path.join(d, "xx_XX.src"), "w") as f:
+        f.write("comment_char %\nescape_char /\nLC_CTYPE\n")
+        f.write("upper " + L(up) + "\nlower " + L(lo) + "\n")
+        f.write("digit " + L(range(0x30, 0x3a)) + "\n")
+        f.write("space " + L([0x20, 9, 10, 11, 12, 13]) + "\n")
+        f.write("cntrl " + L(list(range(0, 0x20)) + [0x7f]) + "\n")
+        f.write("punct " + L([i for i in range(0x21, 0x7f) if not chr(i).isalnum()]) + "\n")
+        f.write("xdigit " + L(list(range(0x30, 0x3a)) + list(range(0x41, 0x47)) + list(range(0x61, 0x67))) + "\n")
+        f.write("blank " + L([0x20, 9]) + "\n")
+        f.write("toupper " + ";".join("(<U%04X>,<U%04X>)" % (l, u) for l, u in zip(lo, up)) + "\n")
+        f.write("tolower " + ";".join("(<U%04X>,<U%04X>)" % (u, l) for l, u in zip(lo, up)) + "\n")
+        f.write("END LC_CTYPE\n")
+    os.makedirs(os.path.join(d, "lp"))
+    subprocess.run(["localedef", "-c", "-f", os.path.join(d, "L1.charmap"), "-i", os.path.join(d, "xx_XX.src"), os.path.join(d, "lp", "xx_XX.L1")], capture_output=True)
+    if not os.path.exists(os.path.join(d, "lp", "xx_XX.L1", "LC_CTYPE")):
+        ck.notes.append("locale_runs skipped: the test locale could not be built")
+        return
+    open(os.path.join(d, "plain"), "wb").write(bytes(range(100)))
+    good = b"ABEiM0RVZneImaq7zN3u/w=="
+    keys = [(good, True)]
+    r = ck.rng
+    for _ in range(10):
+        k = bytearray(good)
+        for pos in r.sample(range(22), r.choice([1, 1, 2, 22])):
+            k[pos] = r.choice(up[26:] + lo[26:])
+        keys.append((bytes(k), False))
+    n = 0
+    for loc in ("C", "xx_XX.L1"):
+        for key, want in keys:
+            env = dict(os.environ, LOCPATH=os.path.join(d, "lp"), LC_CTYPE=loc)
+            env.pop("LC_ALL", None)
+            env.pop("LANG", None)
+            try:
+                p = subprocess.run([cli, "-e", "-n", "-i", "plain", "-o", "enc.out", "-k", key], cwd=d, env=env, stdin=subprocess.DEVNULL, stdout=subprocess.PIPE, stderr=subprocess.STDOUT, timeout=30)
+            except (subprocess.TimeoutExpired, ValueError):
+                continue
+            n += 1
+            ck.cov["evaluations"] += 1
+            accepted = p.returncode == 0
+            if accepted != want:
+                ck.violation("under LC_CTYPE=%s the real binary %s the key text %r (a %s 24-character text)" % (loc, "accepted" if accepted else "refused", key, "well-formed" if want else "non-base64"),
+                             {"class": None, "key_text_hex": key.hex(), "LC_CTYPE": loc, "exit": p.returncode, "output_tail": p.stdout.decode("latin-1")[-300:],
+                              "replay": "build the Wencry binary from /repo; LOCPATH=<dir with a single-byte locale in which 0xC0..0xFE are letters> LC_CTYPE=xx_XX.L1 ./Wencry -e -n -i plain -o out -k <key text>"})
+    ck.cov["runs_under_8bit_locale"] = n
